@@ -310,6 +310,9 @@ class DirWorld:
             return names
         order = [n for n in self.order if n in names] + sorted(n for n in names if n not in self.order)
         self.enum.append(list(order))
+        # what was touched before the enumeration (the directory's own entry: sidecar look-ups such as
+        # <dir>/.abstract) is not part of the pipeline the model describes
+        self.pre, self.touches = self.pre + self.touches, []
         return order
 
     def _touch(self, path, op):
@@ -358,7 +361,7 @@ class DirWorld:
             pass
         sel = sel or (case["sb"] or "/")
         data, tls = request_bytes(proto, sel, self.waptop)
-        self.order, self.enum, self.touches, self.count, self.fired, self.hung = list(order), [], [], {}, [], None
+        self.order, self.enum, self.touches, self.count, self.fired, self.hung, self.pre = list(order), [], [], {}, [], None, []
         self.active = True
         try:
             r = self.w.request(data, tls=tls)
@@ -374,7 +377,7 @@ class DirWorld:
             events.append({"ev": "enum", "order": e})
         events.append({"ev": "touches", "names": collapse([t[0] for t in self.touches])})
         events.append({"ev": "response", "status": status, "listing": items, "culprit": culprit})
-        extra = {"raw": r.out[:500].decode("latin-1"), "log": r.log[-3:], "escaped": r.escaped, "touches": list(self.touches),
+        extra = {"raw": r.out[:500].decode("latin-1"), "log": r.log[-3:], "escaped": r.escaped, "touches": list(self.touches), "pre_touches": list(self.pre),
                  "fired": list(self.fired), "cause": cause, "culprit_label": kid_label(case, culprit) if culprit else ""}
         return events, extra
 
